@@ -1501,4 +1501,17 @@ def replay(path: str) -> int:
     for o, (oc, _d) in zip(done, obs):
         print("  ", o, "->", oc)
     print("final contents:", world_contents(w)[0])
+    # the model on the same operation list (needs a built build/coq, i.e. one earlier ./check run)
+    try:
+        d = vlib.BUILD / "cases" / "C20"
+        d.mkdir(parents=True, exist_ok=True)
+        f = d / "replay_case.v"
+        f.write_text(HEADER + "Definition c := " + caselit(done, obs) + ".\n"
+                     "Eval vm_compute in (agree c, map snd (run_trace emp (fst c))).\n")
+        rc, out = vlib.coqc(f, timeout=300)
+        print("model (Model.Heap.exec) agrees with the implementation on every step:",
+              " ".join(out.split())[:600] if rc == 0 else "could not evaluate: " + out[-300:])
+        f.unlink()
+    except Exception as ex:  # noqa
+        print("model evaluation skipped:", ex)
     return 1 if why else 0
